@@ -288,7 +288,7 @@ class C20(Check):
         steps = []
         ud = None
         ur = rs["user"]
-        n = r.choice([1, 2, 3, 5, 8, 12])
+        n = r.choice([1, 2, 3, 5, 8, 12] + ([25, 50] if tier == "thorough" else []))
         sr = rs["sched"]
         for _ in range(n):
             c = sr.random()
